@@ -630,6 +630,17 @@ where
     }
 }
 
+#[cfg(feature = "verif_hooks")]
+impl<T, A> SimpleGarnishData<T, A>
+where
+    T: SimpleDataType,
+{
+    /// Verification-only (feature `verif_hooks`): (hash key, interned address) entries of the constant cache.
+    pub fn verif_cache(&self) -> Vec<(u64, usize)> {
+        self.cache.iter().map(|(k, v)| (*k, *v)).collect()
+    }
+}
+
 #[cfg(test)]
 mod utilities {
     use super::SimpleGarnishData;
